@@ -112,7 +112,10 @@ func init() {
 				}
 				if special && r.Intn(3) == 0 {
 					// ids that differ from others only by letter case, or contain characters that SQL pattern matching treats specially
-					id = fmt.Sprintf("%s%d", pick(r, "A.", "B.", "a_", "a%", `a\`, "Zz", `a.\`, "a?", "a[", "a[1]", "a]"), i)
+					id = fmt.Sprintf("%s%d", pick(r, "A.", "B.", "a_", "a%", `a\`, "Zz", `a.\`, "a?", "a[", "a[1]", "a]", " a.", "a. ", "\ta."), i)
+					if r.Intn(6) == 0 {
+						id += " " // ids and patterns that begin or end with white space are ids and patterns like any other
+					}
 				}
 				ids = append(ids, id)
 				var tags map[string]string
@@ -171,7 +174,7 @@ func init() {
 					q.Id = ids[r.Intn(len(ids))]
 				}
 				if special && r.Intn(2) == 0 {
-					q.Id = pick(r, "a_*", "a%*", `a\*`, "A.*", "zz*", "Zz*", "a.*", "*_*", `*\*`, "a_1", `a.\*`, "a?*", "a[*", "*[*", "*]*")
+					q.Id = pick(r, "a_*", "a%*", `a\*`, "A.*", "zz*", "Zz*", "a.*", "*_*", `*\*`, "a_1", `a.\*`, "a?*", "a[*", "*[*", "*]*", " a.*", "* ", "a. *", " *", "\ta.*")
 					if len(ids) > 0 && r.Intn(3) == 0 {
 						q.Id = ids[r.Intn(len(ids))] // exact search for an id with special characters
 					}
@@ -292,7 +295,7 @@ func (c *Ctx) traverse(s *Sim, helper *apisub.API, q searchQuery, ids []string) 
 				order = append(order, row.SortId)
 			}
 			if !ss[int(p.State)] || !wildcardMatch(q.Id, p.Id) || !tagsMatch(nzm(p.Tags), q.Tags) {
-				s.mon.violate("C14", "search:result-does-not-match", fmt.Sprintf("query %+v returned %s", q, p))
+				s.mon.violate("C14,C02", "search:result-does-not-match", fmt.Sprintf("query %+v returned %s", q, p))
 			}
 			// "pending promises whose timeout has passed are reported in their timed-out state": a promise the
 			// search reports as timed out by the clock (completedOn = timeout, no completion key) carries the
@@ -372,7 +375,7 @@ func (c *Ctx) traverse(s *Sim, helper *apisub.API, q searchQuery, ids []string) 
 			}
 		}
 		if !some {
-			s.mon.violate("C14", "search:returned-never-matching", fmt.Sprintf("query %+v returned %s which matched at no instant of the traversal", q, id))
+			s.mon.violate("C14,C02", "search:returned-never-matching", fmt.Sprintf("query %+v returned %s which matched at no instant of the traversal", q, id))
 		}
 	}
 	if must > 0 {
@@ -469,7 +472,7 @@ func (c *Ctx) traverseSchedules(s *Sim, helper *apisub.API, q searchQuery, sids 
 				}
 			}
 			if !wildcardMatch(q.Id, sc.Id) || !tagsMatch(nzm(sc.Tags), q.Tags) {
-				s.mon.violate("C14", "search:result-does-not-match", fmt.Sprintf("schedule query %+v returned %s (tags %v)", q, sc.Id, sc.Tags))
+				s.mon.violate("C14,C02", "search:result-does-not-match", fmt.Sprintf("schedule query %+v returned %s (tags %v)", q, sc.Id, sc.Tags))
 			}
 		}
 		if res.Cursor == nil {
